@@ -227,6 +227,12 @@ OPEN = [
      {"mode": "source", "std": "f2003", "key": "deviation:label-leading-zeros", "text": "program p\n010 continue\nend program p\n", "expected": "PROGRAM p\n010 CONTINUE\nEND PROGRAM p"}),
     ("C02", "deviation:numeric-literal-case", "the exponent letter of real literals and the digits of BOZ literals are upper-cased (1.0e5 -> 1.0E5, z'1f' -> Z'1F'); the statement demands numeric literals character for character", None),
     ("C02", "deviation:char-selector-order", "CHARACTER(KIND=k, LEN=n) is printed LEN first: tokens reordered, not a listed canonicalisation", None),
+    ("C02", "deviation:suffix-order", "FUNCTION f(x) BIND(C) RESULT(r) is printed RESULT(r) BIND(C): tokens reordered, not a listed canonicalisation",
+     {"mode": "source", "std": "f2003", "key": "deviation:suffix-order", "text": "function f(x) bind(c) result(r)\nend function f\n",
+      "expected": "FUNCTION f(x) BIND(C) RESULT(r)\nEND FUNCTION f"}),
+    ("C02", "deviation:common-block-comma", "COMMON /a/ x, /b/ y is printed without the optional comma in front of the second block: token dropped, not a listed canonicalisation",
+     {"mode": "source", "std": "f2003", "key": "deviation:common-block-comma", "text": "subroutine s\n  common /a/ x, /b/ y\nend subroutine s\n",
+      "expected": "SUBROUTINE s\nCOMMON /a/ x, /b/ y\nEND SUBROUTINE s"}),
     ("C02", "deviation:blank-common-slashes", "COMMON a, b is printed COMMON // a, b: tokens invented, not a listed canonicalisation", None),
     ("C02", "deviation:computed-goto-comma", "GO TO (10, 20) i is printed with a comma before the expression: token invented, not a listed canonicalisation", None),
     ("C05", "fixed-not-detected:bang-comment-in-columns-2-5", "a '!' comment starting in columns 2-5 makes the detector report free form (asserted by test_conditional_include_omp_conditional_liness_free_format_single_line, so not repairable here)",
